@@ -469,7 +469,7 @@ func Prop() *fw.Property {
 			"zero means |x| <= 1e-10 (canvas' documented Epsilon) in the zero-length-segment clause; arcs within 1e-9 of the radii-fit-the-chord limit are evaluated as half ellipses; requests within 1e-6 below that limit are skipped as ill-conditioned (none in these menus)",
 			"shape models take start point and direction conventions from the constructors (origin / (0,r) / (rx,0) / top vertex, counter clockwise)",
 			"purity is observed on Data() and on the argument objects handed in; aliasing of results with the receiver (Split, Dash with no pattern, Reverse of an empty path) is not a violation by itself",
-			"quick tier: depth-3 states get the core subset of the method list (28 of 70 invocations), shallower states and the thorough tier the full list",
+			"quick tier: depth-3 states get the core subset of the method list (28 of 77 invocations), shallower states and the thorough tier the full list; the list includes aliasing probes (extend a returned path, the receiver must not change)",
 			"Clip, FastClip, SimplifyVisvalingamWhyatt, Markers, GobEncode are called too but only tallied (not in the property's list; Clip panics with \"not implemented\" on curves)",
 			"termination is judged by the framework watchdog (60 s per history)",
 		},
@@ -494,21 +494,51 @@ func knownPredicates() map[string]func(v *fw.Violation) bool {
 			return false
 		}
 	}
+	// isReversal: the history ends in a line-like call (not Close) whose first requested piece
+	// turns back over the previous straight piece, AND the comparison LineTo makes picks the
+	// wrong axis: it tests da.Y < da.X instead of |da.Y| < |da.X| and then finds equal signs
 	isReversal := func(v *fw.Violation) bool {
 		calls, ok := parseNames(v.Case)
-		if !ok || len(calls) == 0 {
+		if !ok || len(calls) == 0 || calls[len(calls)-1].Name == "Close()" {
 			return false
 		}
 		defer func() { recover() }()
 		pp, pm := Build(calls[:len(calls)-1])
 		p, m := Build(calls)
-		return classifyGeometry(calls, pp, pm, m, p) == "geometry:line-reversal-merged"
+		if classifyGeometry(calls, pp, pm, m, p) != "geometry:line-reversal-merged" {
+			return false
+		}
+		pl := pm.last()
+		var a *RSeg
+		for i := range pl.Segs {
+			if !pl.Segs[i].ZeroLength(0) {
+				a = &pl.Segs[i]
+			}
+		}
+		cur := m.Subs[len(pm.Subs)-1]
+		var b *RSeg
+		for i := len(pl.Segs); i < len(cur.Segs); i++ {
+			if !cur.Segs[i].ZeroLength(0) {
+				b = &cur.Segs[i]
+				break
+			}
+		}
+		if a == nil || b == nil {
+			return false
+		}
+		da, db := a.P1.Sub(a.P0), b.P1.Sub(b.P0)
+		if da.Y < da.X {
+			return math.Signbit(da.X) == math.Signbit(db.X)
+		}
+		return math.Signbit(da.Y) == math.Signbit(db.Y)
 	}
 	return map[string]func(v *fw.Violation) bool{
 		"lineto-merges-reversal": func(v *fw.Violation) bool {
-			return v.Class == "geometry:line-reversal-merged" || (v.Class == "zero-length-segment" && isReversal(v))
+			return (v.Class == "geometry:line-reversal-merged" || v.Class == "zero-length-segment") && isReversal(v)
 		},
-		"close-deletes-lone-moveto":          classIs("geometry:pen-position-lost", "panic:canvas.(*Path).replace: runtime error: index out of range [#] with length #"),
+		"close-deletes-lone-moveto":          classIs("geometry:close-of-lone-moveto-forgotten"),
+		"flatten-empty-replacement":          classIs("panic:canvas.(*Path).replace: runtime error: index out of range [#] with length #"),
+		"sweep-right-endpoint-not-in-status": classIs("panic:canvas.bentleyOttmann: right-endpoint not part of status, probably buggy intersection code"),
 		"grid-translates-cell-in-place":      classIs("geometry:shape:Grid"),
 		"dash-edits-pattern-slice":           classIs("argument-slice-mutated:Dash"),
 		"boolean-op-closes-clipping-path":    classIs("clipping-path-mutated:boolean-op", "subject-and-clipping-path-mutated:boolean-op", "Paths-argument-path-mutated:boolean-op"),
